@@ -454,6 +454,33 @@ func (i *interpreter) registerIntrinsics() {
 		fr.i.call(fr, fr.callpos, args[1], nil)
 		return nil
 	}
+	// sync.Pool without reuse: Get hands out New() (or nil), Put drops the value
+	in["(*sync.Pool).Put"] = noopNamed
+	in["(*sync.Pool).Get"] = func(fr *frame, args []value) value {
+		p := args[0].(*value)
+		st := (*p).(structure)
+		sig := fr.fn.Signature
+		if ptr, ok := sig.Recv().Type().(*types.Pointer); ok {
+			if ts, ok := ptr.Elem().Underlying().(*types.Struct); ok {
+				for k := 0; k < ts.NumFields(); k++ {
+					if ts.Field(k).Name() == "New" {
+						if st[k] == nil {
+							return iface{}
+						}
+						if c, ok := st[k].(*closure); ok && c == nil {
+							return iface{}
+						}
+						if f, ok := st[k].(*ssa.Function); ok && f == nil {
+							return iface{}
+						}
+						return fr.i.call(fr, fr.callpos, st[k], nil)
+					}
+				}
+			}
+		}
+		abandon("sync.Pool layout not recognised")
+		return nil
+	}
 	in["(*sync.WaitGroup).Add"] = noopNamed
 	in["(*sync.WaitGroup).Done"] = noopNamed
 	in["(*sync.WaitGroup).Wait"] = noopNamed
